@@ -15,6 +15,7 @@ import (
 	"time"
 
 	"mangosverif/coqgen"
+	"mangosverif/wire"
 
 	"go.nanomsg.org/mangos/v3"
 	"go.nanomsg.org/mangos/v3/macat"
@@ -282,7 +283,87 @@ func main() {
 		}(i)
 	}
 	wg.Wait()
+	// the send-and-receive patterns, with the boundary payload (nothing at all, given as --data "" or as an empty file):
+	// macat sends it once (no --interval) and then receives until --recv-timeout
+	type srCase struct {
+		pat  string
+		data []byte
+		file bool
+		got  [][]byte
+		err  string
+	}
+	var srs []*srCase
+	for _, pat := range []string{"pair", "bus", "star", "push", "pub"} {
+		for k, d := range [][]byte{{}, {}, []byte("x"), body(r, 5+r.Intn(20), 2)} {
+			for j := range d {
+				if d[j] == 0 {
+					d[j] = 'z'
+				}
+			}
+			srs = append(srs, &srCase{pat: pat, data: d, file: k == 1})
+		}
+	}
+	for i, sc := range srs {
+		wg.Add(1)
+		go func(i int, sc *srCase) {
+			defer wg.Done()
+			sem <- struct{}{}
+			defer func() { <-sem }()
+			a := addr()
+			peer := map[string]string{"pair": "pair", "bus": "bus", "star": "star", "push": "pull", "pub": "sub"}[sc.pat]
+			sock := wire.New(peer)
+			defer sock.Close()
+			if peer == "sub" {
+				_ = sock.SetOption(mangos.OptionSubscribe, []byte{})
+			}
+			_ = sock.SetOption(mangos.OptionRecvDeadline, 700*time.Millisecond)
+			if e := sock.Listen(a); e != nil {
+				sc.err = e.Error()
+				return
+			}
+			args := []string{"--" + sc.pat, "--connect", a, "--recv-timeout", "1", "--send-delay", "0"}
+			if sc.pat == "push" || sc.pat == "pub" {
+				args = append(args, "--count", "1")
+			}
+			if sc.file {
+				p := filepath.Join(tmp, fmt.Sprintf("sr%d", i))
+				_ = os.WriteFile(p, sc.data, 0600)
+				args = append(args, "--file", p)
+			} else {
+				args = append(args, "--data", string(sc.data))
+			}
+			done := make(chan error, 1)
+			go func() { done <- runApp(&bytes.Buffer{}, args...) }()
+			for {
+				m, e := sock.Recv()
+				if e != nil {
+					break
+				}
+				sc.got = append(sc.got, m)
+			}
+			select {
+			case e := <-done:
+				if e != nil {
+					sc.err = "run: " + e.Error()
+				}
+			case <-time.After(3 * time.Second):
+				sc.err = "macat did not return"
+			}
+		}(i, sc)
+	}
+	wg.Wait()
 	var ditems []string
+	for _, sc := range srs {
+		var ms []string
+		for _, m := range sc.got {
+			ms = append(ms, coqgen.Hex(m))
+		}
+		if sc.err != "" {
+			fmt.Fprintf(os.Stderr, "c20: send/recv case %s error: %s\n", sc.pat, sc.err)
+			ms = append(ms, `"ff"`, `"ff"`, `"ff"`)
+		}
+		ditems = append(ditems, fmt.Sprintf("(1%%nat, %s, %s) (* --%s %s *)", coqgen.Hex(sc.data), coqgen.List(ms), sc.pat, map[bool]string{true: "--file", false: "--data"}[sc.file]))
+	}
 	for _, sc := range sends {
 		var ms []string
 		for _, m := range sc.got {
